@@ -305,3 +305,77 @@ pub(crate) mod k {
             && hi.x == l.start.x.max(l.end.x) && hi.y == l.start.y.max(l.end.y), "bounds = per-axis min/max");
     }
 }
+
+#[cfg(kani)]
+pub(crate) mod k9 {
+    use super::*;
+    use crate::__verif::kg::*;
+
+    const LIM4: u32 = if crate::__verif::THOROUGH { 1 << 9 } else { 1 << 5 };
+
+    fn ipt() -> (i64, i64, Point) {
+        let i: u32 = kani::any();
+        let j: u32 = kani::any();
+        kani::assume(i < LIM4 && j < LIM4);
+        (i as i64, j as i64, Point::new(i as f32 * 0.25, j as f32 * 0.25))
+    }
+
+    /// S2: util::is_collinear on the lattice is exact: true <=> the integer cross product is zero
+    #[kani::proof]
+    #[kani::solver(kissat)]
+    pub(crate) fn check_is_collinear_exact() {
+        let (ax, ay, a) = ipt();
+        let (bx, by, b) = ipt();
+        let (cx, cy, c) = ipt();
+        kani::cover!(true);
+        let cross = (bx - ax) * (cy - ay) - (by - ay) * (cx - ax);
+        let r = crate::util::is_collinear(&a, &b, &c);
+        kani::cover!(r && !(ax == bx && ay == by));
+        assert!(r == (cross == 0), "collinear <=> exact cross product is zero");
+    }
+}
+
+#[cfg(all(svgbob_verif, test))]
+pub(crate) mod b {
+    use super::*;
+
+    /// S1 (bounded stand-in): is_touching <=> an end point of one segment lies on the closed
+    /// segment of the other, in exact arithmetic, for every pair of lattice segments
+    #[test]
+    fn bounded_is_touching_lattice() {
+        // quarter units: x in 0..=4 step 1, y in 0..=8 step 2  (one cell, 25 points)
+        let pts: Vec<(i64, i64)> = (0..=4).flat_map(|x| (0..=4).map(move |y| (x, 2 * y))).collect();
+        let p = |q: (i64, i64), off: (i64, i64)| Point::new((q.0 + off.0) as f32 * 0.25, (q.1 + off.1) as f32 * 0.25);
+        let on = |a: (i64, i64), b: (i64, i64), q: (i64, i64)| {
+            let cross = (b.0 - a.0) * (q.1 - a.1) - (b.1 - a.1) * (q.0 - a.0);
+            cross == 0 && q.0 >= a.0.min(b.0) && q.0 <= a.0.max(b.0) && q.1 >= a.1.min(b.1) && q.1 <= a.1.max(b.1)
+        };
+        let mut n = 0u64;
+        // two placements: at the origin and far out on the page (C06: position independence)
+        for off in [(0i64, 0i64), (4 * 397, 8 * 193)] {
+            for a0 in &pts {
+                for a1 in &pts {
+                    if a0 == a1 {
+                        continue;
+                    }
+                    for b0 in &pts {
+                        for b1 in &pts {
+                            if b0 == b1 {
+                                continue;
+                            }
+                            let la = Line::new(p(*a0, off), p(*a1, off), false);
+                            let lb = Line::new(p(*b0, off), p(*b1, off), false);
+                            let want = on(*a0, *a1, *b0) || on(*a0, *a1, *b1) || on(*b0, *b1, *a0) || on(*b0, *b1, *a1);
+                            if la.is_touching(&lb) != want {
+                                println!("BOUNDED-WITNESS is_touching({:?}-{:?}, {:?}-{:?}) at offset {:?} = {}, exact: {}", a0, a1, b0, b1, off, !want, want);
+                                panic!("is_touching is exact on the lattice");
+                            }
+                            n += 1;
+                        }
+                    }
+                }
+            }
+        }
+        println!("BOUNDED-CASES {}", n);
+    }
+}
